@@ -127,8 +127,11 @@ func c19Run(r *core.Run) {
 		quoteKind = "unparsable"
 	case 3:
 		quoteKind = "partial-message"
+	case 4:
+		quoteKind = "size-field-boundary"
 	}
 	inform := []string{"bin", "proto", "textproto"}[t.Draw(3)]
+	anyExit := false // only "no crash, no hang" is judged
 	var quoteBytes []byte
 	switch {
 	case quoteKind == "unparsable":
@@ -142,6 +145,35 @@ func c19Run(r *core.Run) {
 		}
 		causes.add(1, "quote file cannot be parsed")
 		causes.add(2, "quote file cannot be parsed")
+	case quoteKind == "size-field-boundary":
+		// a binary quote one of whose size / type fields carries a boundary value of its width (as C10
+		// enumerates them against the library): the tool must refuse it or judge it, not crash
+		inform = "bin"
+		raw, regs := q.BytesRegions()
+		names := []string{"sigdatalen", "cdtype", "cdsize", "authlen", "pctype", "pcsize"}
+		nf := 1 + t.Draw(2)
+		for i := 0; i < nf; i++ {
+			name := names[t.Draw(len(names))]
+			for _, rg := range regs {
+				if rg.Name != name {
+					continue
+				}
+				max := uint64(1)<<(8*rg.Len) - 1
+				var cur uint64
+				for k := rg.Len - 1; k >= 0; k-- {
+					cur = cur<<8 | uint64(raw[rg.Off+k])
+				}
+				vs := []uint64{0, 1, cur - 1, cur + 1, cur / 2, max, max - 1, max - uint64(t.Draw(1024)), max / 2, max/2 + 1, uint64(len(raw)), uint64(len(raw) - rg.Off)}
+				v := vs[t.Draw(len(vs))] & max
+				for k := 0; k < rg.Len; k++ {
+					raw[rg.Off+k] = byte(v >> (8 * k))
+				}
+				note("%s=%#x", name, v)
+			}
+		}
+		quoteBytes = raw
+		anyExit = true
+		r.Probe("binary_quote_with_boundary_size_field")
 	case quoteKind == "partial-message":
 		if inform == "bin" {
 			inform = "proto"
@@ -708,6 +740,12 @@ func c19Run(r *core.Run) {
 		r.Violate("C19:crash:"+site, "the tool crashed (exit %d): %s :: stderr: %s", code, strings.Join(desc, "; "), firstLines(se, 6))
 		return
 	}
+	if anyExit {
+		if code < 0 || code > 4 {
+			r.Violate("C19:exit-code-outside-contract", "exit %d: %s :: stderr: %s", code, strings.Join(desc, "; "), firstLines(se, 3))
+		}
+		return
+	}
 	if _, ok := causes[code]; !ok {
 		cls := fmt.Sprintf("C19:exit-%d-expected-%s", code, causeCodes(causes))
 		if _, net := causes[3]; net && code == 2 {
@@ -803,7 +841,7 @@ func init() {
 	register(&core.Check{
 		ID:    "C19",
 		Level: "exploration",
-		Rule: "one process of the built tools/check binary (tag-guarded getter hook) per run, in a per-run directory populated from the tape: quote valid / forged body or QE signature / unparsable / structurally partial message, in bin / proto / textproto form; config none / binary / .textproto with root-of-trust (bundle file, inline PEM, foreign root, mixed, missing file) and options; each of 9 exact-match fields independently absent / matching / mismatching / malformed in config and in flags; minimum SVN flags incl. explicit 0 and hex; minimum TEE TCB SVN and RTMR expectations; absent sub-policies; corrupted config; network honest / four kinds of transport failure / garbage body / OutOfDate level / unreachable (no hook: the sandbox's sealed network). The exit status must lie in the set the tool contract gives for the injected causes (singleton when there is one cause), and stderr must show no Go panic. " +
+		Rule: "one process of the built tools/check binary (tag-guarded getter hook) per run, in a per-run directory populated from the tape: quote valid / forged body or QE signature / unparsable / structurally partial message / binary quote with boundary values in its size and type fields, in bin / proto / textproto form; config none / binary / .textproto with root-of-trust (bundle file, inline PEM, foreign root, mixed, missing file) and options; each of 9 exact-match fields independently absent / matching / mismatching / malformed in config and in flags; minimum SVN flags incl. explicit 0 and hex; minimum TEE TCB SVN and RTMR expectations; absent sub-policies; corrupted config; network honest / four kinds of transport failure / garbage body / OutOfDate level / unreachable (no hook: the sandbox's sealed network). The exit status must lie in the set the tool contract gives for the injected causes (singleton when there is one cause), and stderr must show no Go panic. " +
 			"distinct = (quote kind, roots, options, network, config present, policy failing, exit status)",
 		Assumptions: []string{
 			"worlds are generated around the real wall clock (the tool has no time seam); validity windows are weeks to years wide",
@@ -818,6 +856,6 @@ func init() {
 			return 2500
 		},
 		Run:       c19Run,
-		MustProbe: []string{"exit_0", "exit_3", "exit_4", "flag_overrides_config_field", "config_sub_policy_absent", "quote_on_stdin"},
+		MustProbe: []string{"exit_0", "exit_3", "exit_4", "flag_overrides_config_field", "config_sub_policy_absent", "quote_on_stdin", "binary_quote_with_boundary_size_field"},
 	})
 }
